@@ -63,6 +63,23 @@ def decision_table(run):
             bad.append((lab, r))
     run.exact(f"_validate_scsv_schema: every single-fault corruption class is rejected [{len(faults)} classes, exhaustive]", fn, ok, f"accepted: {bad}" if bad else "all rejected",
               info=None if ok else dict(checker="contracts.C16:nat_roundtrip_case", inputs=dict(seed=0, it=0, count=1)))
+    # history: the validator has no memory -- a schema object it has accepted and that is then corrupted in place is rejected
+    def _mut_name(s): s["fields"][1]["name"] = "a b"
+    def _mut_type(s): s["fields"][0]["type"] = "int32"
+    def _mut_fill(s): s["fields"][0].pop("fill", None); s["fields"][0]["type"] = "integer"
+    def _mut_marker(s): s["missing"] = s["delimiter"]
+    def _mut_nofields(s): del s["fields"][:]
+    badh = []
+    for mut in (_mut_name, _mut_type, _mut_fill, _mut_marker, _mut_nofields):
+        sch = _base()
+        try:
+            first = v(sch); v(sch); mut(sch); r = v(sch)
+        except Exception as e:
+            first, r = True, f"raised {type(e).__name__}"
+        if first is not True or r is not False:
+            badh.append((mut.__name__[5:], first, r))
+    run.exact("_validate_scsv_schema: a schema object accepted earlier and then corrupted in place is rejected (no memory of earlier verdicts) [5 in-place corruptions]", fn, not badh, f"accepted: {badh}" if badh else "all rejected",
+              info=None if not badh else dict(checker="contracts.C16:nat_roundtrip_case", inputs=dict(seed=0, it=0, count=1)))
     # valid variations are accepted
     okv = True
     for t in ("string", "boolean"):
@@ -277,6 +294,26 @@ def nat_roundtrip(seed, count):
                         break
         except Exception as e:
             msgs.append(f"valid data raised {type(e).__name__}: {str(e)[:100]}")
+        # history: the very schema object that was just used for a save is corrupted in place (field level) and used again
+        try:
+            f0 = schema["fields"][0]
+            keep = dict(f0)
+            if it % 3 == 0:
+                f0["name"] = "not an identifier"
+            elif it % 3 == 1:
+                f0["type"] = "int32"
+            else:
+                f0["type"] = "integer"; f0.pop("fill", None)
+            try:
+                IO.save_scsv(os.path.join(tmp, f"h{it}.scsv"), schema, cols)
+                msgs.append(f"a schema object used for an earlier save and then corrupted in place (class {it % 3}) was accepted")
+            except SCSVError:
+                pass
+            except Exception as e:
+                msgs.append(f"in-place corrupted schema raised {type(e).__name__} instead of SCSVError")
+            f0.clear(); f0.update(keep)
+        except Exception as e:
+            msgs.append(f"harness: {e}")
         # single-fault corruptions are refused
         try:
             k = int(rng.integers(6))
